@@ -25,6 +25,14 @@ def replay(pid, path):
     return 0
 
 
+def died(out):
+    """What to say when a driver process died: the STALL line of the watchdog or the panic line, then the tail."""
+    for line in out.split("\n"):
+        if line.startswith("STALL:") or line.startswith("panic:") or line.startswith("fatal error:"):
+            return line[:400] + " ... " + out[-600:]
+    return out[-1500:]
+
+
 def eval_cases(wd, pattern, meta, pid, kind):
     """Run every generated case file, map mismatching ids back to descriptions."""
     files = sorted(glob.glob(os.path.join(wd, pattern)))
@@ -60,6 +68,14 @@ def run_c18(pid, tier, seed):
         viols.append({"signature": "codec-panic " + p.split(":")[0], "detail": p, "found": True,
                       "replay": {"property": pid, "kind": "panic-or-error in real codec", "what": p}})
     dist = meta["dist"]
+    chk = None
+    if tier == "thorough":
+        ok, axioms, log = vlib.coqchk()
+        chk = {"coqchk_ok": ok, "coqchk_axioms": axioms}
+        if not ok:
+            viols.append({"signature": "coqchk", "detail": "coqchk does not accept the compiled development or reports axioms: %s\n%s" % (axioms, log[-800:]),
+                          "found": False, "replay": {"property": pid, "kind": "proof-broken", "theorem_or_correspondence": "coqchk over coq/Props/*.vo",
+                                                     "detail": log[-2000:]}})
     cov = {"evaluations": meta["cases"], "distinct_nontrivial": sum(1 for k, v in dist.items() if v > 0 and not k.startswith("dec-prefix")) +
            sum(v for k, v in dist.items() if k.startswith("enc/") or k.startswith("tenc/")),
            "rule": "values generated per message kind from one PRNG (boundary integers incl. >=2^63, empty/long strings, 0..5 nodes, "
@@ -68,6 +84,8 @@ def run_c18(pid, tier, seed):
                    "(value and number of unread bytes). distinct_nontrivial = number of distinct generated values that were encoded "
                    "+ number of distinct (bucket) kinds exercised",
            "samples": meta["samples"], "distribution": dist, "case_files": meta["files"]}
+    if chk:
+        cov.update(chk)
     return {"violations": viols, "coverage": cov, "tie_broken": broken}
 
 
@@ -166,7 +184,7 @@ def run_abs(pid, tier, seed, wd):
     nseq, nsteps = (16, 700) if tier == "quick" else (240, 1500)
     rc, out = vlib.vh(["raft", "abs", seed, nseq, nsteps, wd], timeout=3000)
     if rc != 0:
-        return [{"signature": "harness-died abs", "detail": out[-1500:], "found": True,
+        return [{"signature": "harness-died abs", "detail": died(out), "found": True,
                  "replay": {"property": pid, "kind": "process died while driving the real code", "driver": "abs", "output_tail": out[-3000:]}}], None, {}
     meta = json.load(open(os.path.join(wd, "abs_meta.json")))
     files = sorted(glob.glob(os.path.join(wd, "cases_abs_*.v")))
@@ -224,7 +242,7 @@ def run_node(pid, tier, seed):
         if rc != 0:
             # the harness itself died (e.g. SIGSEGV through an unmapped segment): that is a finding for C15/C09
             sig = "harness-died " + drv
-            viols.append({"signature": sig, "detail": out[-1500:], "found": True,
+            viols.append({"signature": sig, "detail": died(out), "found": True,
                           "replay": {"property": pid, "kind": "process died while driving the real code", "driver": drv, "args": args,
                                      "output_tail": out[-3000:]}})
             continue
